@@ -287,14 +287,16 @@ func c44gateRun(r *vh.Run, g *c44gcase, id uint32) {
 	}
 	judgeMoved("after-action")
 	_, marked := w.contractAt(s.addrO)
+	markerReported := false
 	if tracked && !marked {
+		markerReported = true
 		viol(g.Action+":after-action:old-not-marked-destroyed", "tracking is active at height %d but the %s left no destroyed marker for the old address", g.Height, g.Action)
 	}
 	r.Class(fmt.Sprintf("gate:%s:%s:%s:tracked=%v:marked=%v", g.Name, g.HClass, g.Action, tracked, marked))
 
 	// ---- later transactions: rest of the block, the next block, a far later block
 	alive := false // a legitimate re-deployment happened (tracking not active when the address died)
-	follow := func(when string) {
+	follow := func(when string) bool { // false: a violation ended the scenario
 		for _, name := range c44gFollow {
 			var tx *types.Transaction
 			switch name {
@@ -332,21 +334,26 @@ func c44gateRun(r *vh.Run, g *c44gcase, id uint32) {
 				r.Class(fmt.Sprintf("gate:untracked:%s:%s:%s:redeployed=%v", g.Action, when, name, present))
 				continue
 			}
-			if !destroyed {
+			if !destroyed && !markerReported {
+				markerReported = true
 				viol(g.Action+":"+when+":old-not-marked-destroyed", "after %s: no destroyed marker for the old address", name)
 			}
 			if present || (ok(n) && name == "deploy-old" && n.CreatedContract == s.addrO) {
 				viol("redeploy:"+name+":accepted", "%s: %s put a contract entry at the dead old address again (tx state %d, marker present: %v)", when, name, n.State, destroyed)
-				return
+				return false
 			}
 			if len(stored) != 0 {
 				viol("write-again:"+name+":accepted", "%s: after %s storage exists under the dead old address: %v", when, name, stored)
-				return
+				return false
 			}
 			r.Class(fmt.Sprintf("gate:tracked:%s:%s:tx-ok=%v", name, when, ok(n)))
 		}
+		return true
 	}
-	follow("same-block")
+	r.Trace(1)
+	if !follow("same-block") {
+		return
+	}
 	w.end()
 	committed := func(when string) {
 		if alive {
@@ -355,7 +362,8 @@ func c44gateRun(r *vh.Run, g *c44gcase, id uint32) {
 		if w.storeHas(scom.ST_CONTRACT, s.addrO) || len(w.storedUnder(s.addrO)) != 0 {
 			viol(g.Action+":"+when+":store:old-address-not-empty", "committed store: contract entry %v, storage %v under the old address", w.storeHas(scom.ST_CONTRACT, s.addrO), w.storedUnder(s.addrO))
 		}
-		if tracked && !w.storeHas(scom.ST_DESTROYED, s.addrO) {
+		if tracked && !w.storeHas(scom.ST_DESTROYED, s.addrO) && !markerReported {
+			markerReported = true
 			viol(g.Action+":"+when+":store:old-not-marked-destroyed", "committed store has no destroyed marker for the old address")
 		}
 		judgeMoved(when + ":store")
@@ -366,11 +374,12 @@ func c44gateRun(r *vh.Run, g *c44gcase, id uint32) {
 		d    uint32
 	}{{"next-block", 1}, {"far-later-block", 100000}} {
 		w.begin(g.Height + later.d)
-		follow(later.when)
+		if !follow(later.when) {
+			return
+		}
 		w.end()
 		committed(later.when)
 	}
-	r.Trace(1)
 }
 
 func TestVerif_C44_gate(t *testing.T) {
